@@ -66,11 +66,23 @@ TOpen ==
        IF p = "" \/ p \in broken
        THEN /\ durFile' = [durFile EXCEPT ![T] = [offs |-> Offs, set |-> {}]]
             /\ durOff' = [durOff EXCEPT ![T] = Zero]
-       ELSE /\ Offs = Rec(p)
+       ELSE IF ~Line.crash
+       THEN /\ Offs = Rec(p)
             /\ fl[p] \in {"idle", "swapped"}                         \* the previous life was not inside a flush
             /\ Line.file = durname[p]
             /\ durFile' = [durFile EXCEPT ![T] = [offs |-> durFile[p].offs, set |-> durFile[p].set]]
             /\ durOff' = [durOff EXCEPT ![T] = durOff[p]]
+       ELSE \* the previous life was killed at an unknown instant after its last event: what it
+            \* left durable is what the events say, or one step further - the rename of the flush
+            \* whose temp file was complete, or of the offset file that was being written
+            LET logged == [offs |-> Rec(p), set |-> durFile[p].set, file |-> durname[p]]
+                flushed == [offs |-> [s \in Sources |-> Max2(flw[p].offs[s], durOff[p][s])], set |-> flw[p].set, file |-> "?"]
+                offsets == [offs |-> [s \in Sources |-> Max2(durFile[p].offs[s], applied[p][s])], set |-> durFile[p].set, file |-> durname[p]]
+                cands == {logged} \cup (IF fl[p] = "temp" THEN {flushed} ELSE {}) \cup (IF offtmp[p] THEN {offsets} ELSE {})
+            IN /\ \E c \in cands :
+                    /\ Offs = c.offs /\ (c.file = "?" \/ Line.file = c.file)
+                    /\ durFile' = [durFile EXCEPT ![T] = [offs |-> Offs, set |-> c.set]]
+               /\ durOff' = [durOff EXCEPT ![T] = Zero]
   /\ rd' = [rd EXCEPT ![T] = Offs] /\ applied' = [applied EXCEPT ![T] = Offs]
   /\ cur' = [cur EXCEPT ![T] = durFile'[T]]
   /\ opened' = opened \cup {T} /\ succ' = IF Line.prev = "" THEN succ ELSE succ \cup {Line.prev}
